@@ -667,7 +667,7 @@ func c15Classify(x *c15X, m *c15Model, got string) string {
 
 func c15Part1(c *vx.Check, track bool, nbits int, trees []*c15X, storeTrees []*c15X, flipWrite bool, tag string) {
 	n := 1 << uint(nbits)
-	vx.ParallelFor(n, func(mask int) {
+	c.ProcFor(c.NextRunLabel(), n, nil, func(_ []byte, mask int, _ func([]byte)) {
 		if c.Expired() {
 			return
 		}
@@ -739,7 +739,7 @@ func c15Part1(c *vx.Check, track bool, nbits int, trees []*c15X, storeTrees []*c
 		if mask == n-1 || mask == 1 {
 			c.Sample(ds + fmt.Sprintf(" (%d expressions, %d stores)", len(trees), len(storeTrees)))
 		}
-	})
+	}, nil)
 }
 
 // c15StoreShiftDefect: what Store writes when the per-shard source row still holds the carried
@@ -788,47 +788,74 @@ type c15Hist struct {
 
 var c15StoreDst = []uint64{0, 3}
 
-func (h *c15Hist) Apply(op vx.Op) (got, want string) {
+// model applies a write op to the model only and returns the expected return value.
+func (h *c15Hist) model(op vx.Op) string {
+	m := h.m
 	switch op.Name {
-	case "set":
-		return c15SetBit(h.e, h.index, h.m, h.bits[op.Args[0]])
-	case "import":
-		return c15ImportBit(h.e, h.index, h.m, h.bits[op.Args[0]])
+	case "set", "import":
+		b := h.bits[op.Args[0]]
+		_, had := m.row(b.f, b.row)[b.col]
+		m.row(b.f, b.row)[b.col] = struct{}{}
+		if m.track {
+			m.exist[b.col] = struct{}{}
+		}
+		if op.Name == "import" {
+			return "<nil>"
+		}
+		return fmt.Sprint(!had)
 	case "clear":
 		b := h.bits[op.Args[0]]
-		_, had := h.m.row(b.f, b.row)[b.col]
-		delete(h.m.row(b.f, b.row), b.col)
-		r, err := h.e.query(h.index, fmt.Sprintf("Clear(%d, %s=%d)", b.col, b.f, b.row))
-		if err != nil || len(r) != 1 {
-			return fmt.Sprintf("ERR %v", err), fmt.Sprint(had)
-		}
-		return c15Got(r[0], nil), fmt.Sprint(had)
+		_, had := m.row(b.f, b.row)[b.col]
+		delete(m.row(b.f, b.row), b.col)
+		return fmt.Sprint(had)
 	case "clearRow":
 		f := []string{"f", "g"}[op.Args[0]]
 		row := uint64(op.Args[1])
-		had := len(h.m.row(f, row)) > 0
-		h.m.rows[f][row] = c15Set{}
-		r, err := h.e.query(h.index, fmt.Sprintf("ClearRow(%s=%d)", f, row))
-		if err != nil || len(r) != 1 {
-			return fmt.Sprintf("ERR %v", err), fmt.Sprint(had)
-		}
-		return c15Got(r[0], nil), fmt.Sprint(had)
+		had := len(m.row(f, row)) > 0
+		m.rows[f][row] = c15Set{}
+		return fmt.Sprint(had)
 	case "store":
-		src := h.srcs[op.Args[0]]
-		dst := c15StoreDst[op.Args[1]]
-		set, ok := c15Eval(src, h.m, -1)
-		if ok {
-			h.m.rows["f"][dst] = set
-		}
-		r, err := h.e.query(h.index, fmt.Sprintf("Store(%s, f=%d)", src.pql(), dst))
-		w := "true"
+		set, ok := c15Eval(h.srcs[op.Args[0]], m, -1)
 		if !ok {
-			w = "ERR"
+			return "ERR"
 		}
+		m.row("f", c15StoreDst[op.Args[1]])
+		m.rows["f"][c15StoreDst[op.Args[1]]] = set
+		return "true"
+	}
+	return ""
+}
+
+func (h *c15Hist) Apply(op vx.Op) (got, want string) {
+	one := func(q string) string {
+		r, err := h.e.query(h.index, q)
 		if err != nil || len(r) != 1 {
-			return "ERR", w
+			return fmt.Sprintf("ERR %v", err)
 		}
-		return c15Got(r[0], nil), w
+		return c15Got(r[0], nil)
+	}
+	switch op.Name {
+	case "set":
+		b := h.bits[op.Args[0]]
+		return one(fmt.Sprintf("Set(%d, %s=%d)", b.col, b.f, b.row)), h.model(op)
+	case "import":
+		b := h.bits[op.Args[0]]
+		err := h.e.api.Import(context.Background(), &ImportRequest{Index: h.index, Field: b.f, Shard: b.col / c15SW,
+			RowIDs: []uint64{b.row}, ColumnIDs: []uint64{b.col}})
+		return fmt.Sprint(err), h.model(op)
+	case "clear":
+		b := h.bits[op.Args[0]]
+		return one(fmt.Sprintf("Clear(%d, %s=%d)", b.col, b.f, b.row)), h.model(op)
+	case "clearRow":
+		return one(fmt.Sprintf("ClearRow(%s=%d)", []string{"f", "g"}[op.Args[0]], op.Args[1])), h.model(op)
+	case "store":
+		q := fmt.Sprintf("Store(%s, f=%d)", h.srcs[op.Args[0]].pql(), c15StoreDst[op.Args[1]])
+		w := h.model(op)
+		g := one(q)
+		if strings.HasPrefix(g, "ERR") {
+			g = "ERR"
+		}
+		return g, w
 	case "read":
 		g := c15Run(h.e, h.index, h.reads)
 		var gs, ws strings.Builder
@@ -844,6 +871,28 @@ func (h *c15Hist) Apply(op vx.Op) (got, want string) {
 		return gs.String(), ws.String()
 	}
 	panic("c15: unknown op " + op.Name)
+}
+
+// c15CountStates enumerates, on the model alone, the canonical states the histories reach.
+func c15CountStates(alpha []vx.Op, mk func() *c15Hist, depth int, into map[string]struct{}) {
+	var rec func(prefix []vx.Op)
+	rec = func(prefix []vx.Op) {
+		h := mk()
+		for _, op := range prefix {
+			h.model(op)
+		}
+		into[h.m.canon()] = struct{}{}
+		if len(prefix) == depth {
+			return
+		}
+		for _, op := range alpha {
+			if op.Name == "read" {
+				continue // reads do not change the model state
+			}
+			rec(append(append([]vx.Op(nil), prefix...), op))
+		}
+	}
+	rec(nil)
 }
 
 func (h *c15Hist) Fingerprint() string { return h.m.canon() }
@@ -911,7 +960,7 @@ func TestVerif_C15(t *testing.T) {
 	c.Bound("depth2_subtrees", len(subs))
 
 	nb1 := c.Pick(7, 9) // candidate bits for the depth<=1 family (+Count, +Store)
-	nb2 := c.Pick(5, 7) // candidate bits for the depth-2 family
+	nb2 := c.Pick(4, 7) // candidate bits for the depth-2 family
 	c.Bound("candidate_bits_depth1", nb1)
 	c.Bound("candidate_bits_depth2", nb2)
 
@@ -926,7 +975,6 @@ func TestVerif_C15(t *testing.T) {
 	c15Part1(c, false, c.Pick(5, 7), c15WithCounts(d1), nil, true, "d1-notrack")
 
 	// ---- histories
-	var stateMu sync.Mutex
 	states := map[string]struct{}{}
 	nHistBits := c.Pick(3, 5)
 	srcs := []*c15X{
@@ -977,47 +1025,45 @@ func TestVerif_C15(t *testing.T) {
 		if c.Thorough() && bi == 0 {
 			depth = 4
 		}
-		h := &vx.Harness{Alphabet: alpha, Key: c15HistKey, New: func() vx.Instance {
-			e := c15GetEnv()
-			in := &c15Hist{e: e, index: e.newIndex(true, false), m: c15NewModel(true), bits: c15Cand[:nHistBits], srcs: srcs, reads: reads}
+		mkModel := func() *c15Hist {
+			in := &c15Hist{m: c15NewModel(true), bits: c15Cand[:nHistBits], srcs: srcs, reads: reads}
 			in.m.row("f", 0)
 			in.m.row("f", 1)
 			in.m.row("f", 3)
 			in.m.row("g", 0)
+			return in
+		}
+		h := &vx.Harness{Alphabet: alpha, Key: c15HistKey, MultiProcess: true, New: func() vx.Instance {
+			in := mkModel()
+			in.e = c15GetEnv()
+			in.index = in.e.newIndex(true, false)
 			for k, i := range base {
 				if k%2 == 0 {
-					c15SetBit(e, in.index, in.m, c15Cand[i])
+					c15SetBit(in.e, in.index, in.m, c15Cand[i])
 				} else {
-					c15ImportBit(e, in.index, in.m, c15Cand[i])
+					c15ImportBit(in.e, in.index, in.m, c15Cand[i])
 				}
 			}
-			return &c15Counting{c15Hist: in, mu: &stateMu, states: states}
+			return in
 		}}
 		c.RunDFS(h, depth)
 		c.ConfirmViolations(h)
+		if !vx.IsChild() {
+			c15CountStates(alpha, func() *c15Hist {
+				in := mkModel()
+				for _, i := range base {
+					b := c15Cand[i]
+					in.m.row(b.f, b.row)[b.col] = struct{}{}
+					in.m.exist[b.col] = struct{}{}
+				}
+				return in
+			}, depth-1, states)
+		}
 	}
-	stateMu.Lock()
 	c.AddStates(int64(len(states)))
-	stateMu.Unlock()
 	c.AddValidated(c.Evaluations)
 	c.Assume("single node, executor worker pool of 1 (result arrival order is C17's subject); columns restricted to container/shard-edge positions of shards 0 and 1; time and int leaves over fixed data")
 	if c.Finish() != 0 {
 		t.Fail()
 	}
-}
-
-// c15Counting records every canonical model state reached (for the states count of the evidence).
-type c15Counting struct {
-	*c15Hist
-	mu     *sync.Mutex
-	states map[string]struct{}
-}
-
-func (x *c15Counting) Apply(op vx.Op) (string, string) {
-	g, w := x.c15Hist.Apply(op)
-	s := x.m.canon()
-	x.mu.Lock()
-	x.states[s] = struct{}{}
-	x.mu.Unlock()
-	return g, w
 }
